@@ -71,6 +71,12 @@ type Crash struct {
 	// StderrTail is the last part of the worker's stderr.
 	StderrTail string `json:"stderr_tail"`
 	ExitCode   int    `json:"exit_code"`
+	// Deadlock (Kind watchdog only): the goroutine dump taken when the watchdog fired shows at least
+	// one goroutine inside /repo code and every such goroutine blocked on a lock, channel or
+	// condition (none running, runnable, sleeping or in a system call): nothing in the program can
+	// make progress any more. BlockedIn names the /repo functions they are blocked in.
+	Deadlock  bool   `json:"deadlock,omitempty"`
+	BlockedIn string `json:"blocked_in,omitempty"`
 }
 
 // Info describes a property check for the evidence file.
